@@ -2,6 +2,7 @@ import Gearpy.Model.Snapshot
 import Gearpy.Model.Record
 import Gearpy.Proofs.Units
 import Gearpy.Generated.Tables
+import Gearpy.Properties.C11
 import Mathlib.Algebra.Order.Field.Basic
 /-!
 # C18 — snapshot and export report the recorded history faithfully
@@ -10,6 +11,9 @@ import Mathlib.Algebra.Order.Field.Basic
 is the conversion of an SI sample to the requested unit (C05).
 * `interp_at_knot_first`, `interp_at_second`, `interp_at_knot`: at a recorded instant the
   snapshot value is the recorded sample (on a strictly increasing axis, C11.axis_strictMono);
+* `recorded_axis_strictInc`, `snapshot_at_recorded`: that hypothesis holds for every history the solver model can produce
+  (any schedule of runs with positive time steps, resets, attribute changes: `C11.schedule_axis_increasing`), so a snapshot
+  at any recorded instant of any such history returns the recorded sample of every column — no hypothesis left;
 * `interp_between`, `interp_between_at`: between *any* two neighbouring instants of a strictly increasing axis —
   equally spaced or not — it is their linear interpolation, and it lies between the two samples (`interp_within`);
 * `interp_outside_left`, `interp_outside_right`: outside the simulated interval there is no value (the code raises ValueError);
@@ -297,5 +301,29 @@ theorem export_cell (y f : Q) (hf : 0 < f) : cell y f * f = y := by
 example : interp [0, 1/2, 1] [3, 5, 4] (1/4) = some 4 := by decide +kernel
 example : interp [0, 1/2, 1] [3, 5, 4] (1/2) = some 5 := by decide +kernel
 example : interp [0, 1/2, 1] [3, 5, 4] 2 = none := by decide +kernel
+
+/-! ### the axis hypothesis discharged for every history the solver model can produce -/
+theorem strictInc_of_pairwise : ∀ (l : List Q), l.Pairwise (· < ·) → StrictInc l
+  | [], _ => trivial
+  | [_], _ => trivial
+  | a :: b :: rest, h => by
+    rw [List.pairwise_cons] at h
+    exact ⟨h.1 b (by simp), strictInc_of_pairwise (b :: rest) h.2⟩
+
+/-- **The hypothesis of the interpolation theorems holds for every history the solver can produce**: along any schedule
+    of runs with positive time steps, resets and attribute changes, the recorded time axis is strictly increasing
+    (`C11.schedule_axis_increasing`) -/
+theorem recorded_axis_strictInc (c : Cfg) (ops : List Op) (hops : C11.PosSteps ops) (p v : Q) (s' : St)
+    (h : exec c ops (St.init p v) = .ok s') : StrictInc (s'.recs.map (·.time)) :=
+  strictInc_of_pairwise _ (C11.schedule_axis_increasing c ops hops (St.init p v) s' (by simp [St.init]) h)
+
+/-- a snapshot taken at any recorded instant of any such history returns, for every column read off the records, the
+    sample recorded at that instant — no hypothesis on the axis left -/
+theorem snapshot_at_recorded (c : Cfg) (ops : List Op) (hops : C11.PosSteps ops) (p v : Q) (s' : St)
+    (h : exec c ops (St.init p v) = .ok s') (col : Rec → Q) (j : Nat) (hj : j < s'.recs.length) :
+    interp (s'.recs.map (·.time)) (s'.recs.map col) ((s'.recs[j]).time) = some (col (s'.recs[j])) := by
+  have := interp_at_knot (s'.recs.map (·.time)) (s'.recs.map col) (by simp)
+    (recorded_axis_strictInc c ops hops p v s' h) j (by simpa using hj)
+  simpa using this
 
 end Gearpy.C18
